@@ -298,8 +298,46 @@ class LogK(nn.Module):            # rho = log(1+x), user kernel with negative cu
         return torch.log1p(x)
 
 
+# user kernels written as subclasses of the library's own kernel classes that override forward(): the kernel is what forward() computes
+def _subclass_kernels():
+    K = pp.optim.kernel
+
+    class QuadOnScale(K.Scale):          # rho = x + x^2/2 on top of Scale(delta=0.3)
+        def __init__(self):
+            super().__init__(0.3)
+
+        def forward(self, x):
+            return x + 0.5 * x * x
+
+    class LogOnHuber(K.Huber):           # rho = log(1+x) on top of Huber(delta=0.5)
+        def __init__(self):
+            super().__init__(0.5)
+
+        def forward(self, x):
+            return torch.log1p(x)
+
+    class CubicOnCauchy(K.Cauchy):       # rho = x + x^3 on top of Cauchy(delta=2)
+        def __init__(self):
+            super().__init__(2.0)
+
+        def forward(self, x):
+            return x + x * x * x
+    return QuadOnScale, LogOnHuber, CubicOnCauchy
+
+
 def user_specs():
     out = []
+    QuadOnScale, LogOnHuber, CubicOnCauchy = _subclass_kernels()
+    out.append(Spec("UserQuadOnScale", (), QuadOnScale, lambda x: x + x * x / 2, lambda x: _f(x) + 0.5 * _f(x) ** 2,
+                    lambda x: (1 + _f(x), np.ones(_f(x).shape), np.zeros(_f(x).shape), 1 + _f(x), np.ones(_f(x).shape), _f(x)),
+                    "pos", 1.0, 1e3, builtin=False))
+    out.append(Spec("UserLogOnHuber", (), LogOnHuber, lambda x: mp.log(1 + x), lambda x: np.maximum(1.0, np.log1p(_f(x))),
+                    lambda x: (1 / (1 + _f(x)), -1 / (1 + _f(x)) ** 2, 2 / (1 + _f(x)) ** 3, 1 / (1 + _f(x)),
+                               1 / (1 + _f(x)) ** 2, _f(x) / (1 + _f(x)) ** 2), "neg", 1.0, 1e6, builtin=False))
+    out.append(Spec("UserCubicOnCauchy", (), CubicOnCauchy, lambda x: x + x ** 3, lambda x: _f(x) + _f(x) ** 3,
+                    lambda x: (1 + 3 * _f(x) ** 2, 6 * _f(x), np.full(_f(x).shape, 6.0), 1 + 3 * _f(x) ** 2, 6 * _f(x),
+                               6 * _f(x) ** 2),
+                    "pos", 1.0, 1e2, builtin=False))
     out.append(Spec("UserQuad", (), QuadK, lambda x: x + x * x / 2, lambda x: _f(x) + 0.5 * _f(x) ** 2,
                     lambda x: (1 + _f(x), np.ones(_f(x).shape), np.zeros(_f(x).shape), 1 + _f(x), np.ones(_f(x).shape), _f(x)),
                     "pos", 1.0, 1e3, builtin=False))
